@@ -7,10 +7,11 @@
 (* their interactions.                                                      *)
 (*                                                                         *)
 (* The world (environment):                                                *)
-(*   up[e]      the backend process answers (listener open, health 200)     *)
+(*   up[e]      "up" (answers everything), "sick" (serves requests but its  *)
+(*              health endpoint says 503) or "down" (refuses connections)  *)
 (*   lists[e]   the models the backend would list if asked                  *)
 (* olla's knowledge:                                                       *)
-(*   status[e]  "healthy" | "offline"   (endpoint repository)               *)
+(*   status[e]  "healthy" | "unhealthy" | "offline"  (endpoint repository)  *)
 (*   known[e]   the models of e's most recent successful listing            *)
 (* They are brought together by                                            *)
 (*   Health     a health round: status follows `up`; an endpoint that       *)
@@ -45,10 +46,11 @@ VARIABLES kind,       \* [EP -> Kinds]            scenario constant
 vars == <<kind, up, lists, status, known, req, act, scn>>
 
 NoReq == [route |-> "", model |-> "", cands |-> {}, tried |-> {}, phase |-> "none", served |-> "none"]
-Allowed(route, e) == route = "proxy" \/ kind[e] = route
+\* "proxy" and the translated Anthropic route take any kind; a provider prefix only its own
+Allowed(route, e) == route \in {"proxy", "anthropic"} \/ kind[e] = route
 
 Init == /\ kind \in [EP -> Kinds]
-        /\ up = [e \in EP |-> TRUE]
+        /\ up = [e \in EP |-> "up"]
         /\ lists \in [EP -> SUBSET Models]
         \* the server has booted: every endpoint was probed and listed once
         /\ status = [e \in EP |-> "healthy"] /\ known = lists
@@ -58,15 +60,15 @@ Init == /\ kind \in [EP -> Kinds]
 Idle == req.phase = "none"
 
 (* ---- the world ---- *)
-SetUp(e, b) == /\ Idle /\ act' = "SetUp" /\ up[e] # b /\ up' = [up EXCEPT ![e] = b]
+SetUp(e, b) == /\ Idle /\ act' = "SetUp" /\ up[e] # b /\ up' = [up EXCEPT ![e] = b]   \* b \in Modes
                /\ UNCHANGED <<kind, lists, status, known, req>>
 Relist(e, S) == /\ Idle /\ act' = "Relist" /\ lists[e] # S /\ lists' = [lists EXCEPT ![e] = S]
                 /\ UNCHANGED <<kind, up, status, known, req>>
 
 (* ---- a health round ---- *)
 Health == /\ Idle /\ act' = "Health"
-          /\ status' = [e \in EP |-> IF up[e] THEN "healthy" ELSE "offline"]
-          /\ known' = [e \in EP |-> IF up[e] /\ status[e] # "healthy" THEN lists[e] ELSE known[e]]
+          /\ status' = [e \in EP |-> CASE up[e] = "up" -> "healthy" [] up[e] = "sick" -> "unhealthy" [] OTHER -> "offline"]
+          /\ known' = [e \in EP |-> IF up[e] = "up" /\ status[e] # "healthy" THEN lists[e] ELSE known[e]]
           /\ UNCHANGED <<kind, up, lists, req>>
 
 (* ---- a request ---- *)
@@ -77,7 +79,7 @@ Arrive(route, m) == /\ Idle /\ act' = "Arrive"
                     /\ UNCHANGED <<kind, up, lists, status, known>>
 \* one attempt on a candidate not tried yet
 Attempt(e) == /\ req.phase = "choosing" /\ e \in req.cands \ req.tried /\ act' = "Attempt"
-              /\ IF up[e]
+              /\ IF up[e] # "down"
                  THEN req' = [req EXCEPT !.tried = @ \cup {e}, !.phase = "served", !.served = e] /\ UNCHANGED status
                  ELSE /\ req' = [req EXCEPT !.tried = @ \cup {e}]
                       /\ status' = [status EXCEPT ![e] = "offline"]          \* out of rotation until readmitted
@@ -89,7 +91,8 @@ Answer == /\ req.phase \in {"choosing", "served"} /\ act' = "Answer"
           /\ UNCHANGED <<kind, up, lists, status, known>>
 
 Log(t) == scn' = Append(scn, t)
-Next == \/ \E e \in EP : \E b \in BOOLEAN : SetUp(e, b) /\ Log([op |-> "up", e |-> e, b |-> b])
+Modes == {"up", "sick", "down"}
+Next == \/ \E e \in EP : \E b \in Modes : SetUp(e, b) /\ Log([op |-> "up", e |-> e, b |-> b])
         \/ \E e \in EP : \E S \in SUBSET Models : Relist(e, S) /\ Log([op |-> "relist", e |-> e, S |-> S])
         \/ Health /\ Log([op |-> "health"])
         \/ \E r \in Routes : \E m \in Ask : Arrive(r, m) /\ Log([op |-> "req", route |-> r, model |-> m])
@@ -99,7 +102,7 @@ Spec == Init /\ [][Next]_vars
 
 -----------------------------------------------------------------------------
 (* System-level invariants: what a user relies on, whatever the history *)
-TypeOK == /\ status \in [EP -> {"healthy", "offline"}] /\ known \in [EP -> SUBSET Models]
+TypeOK == /\ status \in [EP -> {"healthy", "unhealthy", "offline"}] /\ known \in [EP -> SUBSET Models]
           /\ req.tried \subseteq req.cands
 \* whoever serves a request was a candidate of it: healthy at arrival, of the route's kind, known to list the model
 ServedByCandidate == req.served # "none" => req.served \in req.cands
